@@ -3,6 +3,7 @@
 #include <cstdio>
 #include <cstdlib>
 #include <cstring>
+#include <unistd.h>
 #include <map>
 #include <vector>
 using namespace FIX8;
@@ -15,7 +16,13 @@ struct RSession : Session
 };
 int main(int argc, char **argv)
 {
-  Persister *p = new MemoryPersister;
+  Persister *p; std::string tmpdir;
+  if (argc > 1 && !strcmp(argv[1], "file"))   // real FilePersister on a fresh temporary directory
+  {
+    char tmpl[] = "/tmp/vf_c26_XXXXXX"; const char *dir = mkdtemp(tmpl); if (!dir) { perror("mkdtemp"); return 3; }
+    FilePersister *fp = new FilePersister; if (!fp->initialise(dir, "s")) { printf("initialise failed\n"); return 3; } p = fp; tmpdir = dir;
+  }
+  else p = new MemoryPersister;
   std::map<unsigned, std::string> ref; bool hasc = false; unsigned ca = 0, cb = 0; int bad = 0;
   alignas(16) static char sess_raw[sizeof(RSession) + 64]; Session *sess = reinterpret_cast<Session*>(sess_raw);   // opaque handle, as in the harness
   for (int i = 2; i + 5 < argc; i += 6)
@@ -32,6 +39,7 @@ int main(int argc, char **argv)
            unsigned got = p->get(a, b, *sess, static_cast<bool (Session::*)(const Session::SequencePair&, Session::RetransmissionContext&)>(&RSession::rec_cb));
            if (cb_recs != exp || got != exp.size() || cb_done != 1) { ++bad; printf("op%d range[%u,%u] visited %zu records (expected %zu), returned %u, completion signals %d\n", i / 6, a, b, cb_recs.size(), exp.size(), got, cb_done); } }
   }
+  if (!tmpdir.empty()) { delete p; unlink((tmpdir + "/s").c_str()); unlink((tmpdir + "/s.idx").c_str()); rmdir(tmpdir.c_str()); }
   printf("%s\n", bad ? "VIOLATED" : "ok");
   return bad ? 1 : 0;
 }
